@@ -110,9 +110,28 @@ class Fn:
             if ty == Z:
                 return f"(Z.eqb {t} 0)", B
             raise Untranslatable("truth value of " + _u(e.operand))
+        if isinstance(e, ast.Tuple) and e.elts and not any(isinstance(x, ast.Starred) for x in e.elts):
+            # a tuple of natural numbers (a shape): (1,), (n_samples,)
+            items = []
+            for x in e.elts:
+                t, ty = self.expr(x, env, pre)
+                if ty == Z and t.startswith("(") and t.endswith(")%Z") and t[1:-3].isdigit():
+                    t, ty = t[1:-3], N
+                if ty != N:
+                    raise Untranslatable("tuple element " + _u(x))
+                items.append(t)
+            return "[" + "; ".join(items) + "]", LN
         if isinstance(e, ast.BinOp) and isinstance(e.op, (ast.Add, ast.Sub, ast.Mult)):
             a, ta = self.expr(e.left, env, pre)
             b, tb = self.expr(e.right, env, pre)
+            if isinstance(e.op, ast.Mult) and ta == LN and isinstance(e.left, ast.Tuple) and len(e.left.elts) == 1 and tb in (N, Z):
+                # (x,) * n: n copies, none when n <= 0
+                return f"(repeat {a[1:-1]} {b if tb == N else '(Z.to_nat ' + b + ')'})", LN
+            if isinstance(e.op, ast.Add) and ta == LN and tb == LN:
+                return f"({a} ++ {b})", LN
+            if isinstance(e.op, ast.Mult) and ta == T and tb == T:
+                h = self.fresh(); pre.append((h, f"bcast_mul Op {a} {b}"))       # NumPy's broadcasting multiply (same rank), may raise
+                return h, T
             if isinstance(e.op, ast.Mult) and ta == T and tb == "SYM" and b[0] in ("ROWVEC", "COLVEC"):
                 # X * reshape(w, (1, -1)) / X * reshape(m, (-1, 1)) for a 2-D X: the model's broadcasts apply_w / apply_mask
                 h = self.fresh(); pre.append((h, f"{'apply_w' if b[0] == 'ROWVEC' else 'apply_mask'} Op (Some {b[1]}) {a}"))
@@ -153,6 +172,9 @@ class Fn:
             if ty != T:
                 raise Untranslatable("shape of " + _u(e.value))
             return f"(shape {t})", LN
+        if isinstance(e, ast.List) and e.elts and not any(isinstance(x, ast.Starred) for x in e.elts):
+            items = [self.arg(x, env, pre, T) for x in e.elts]       # a list of arrays
+            return "[" + "; ".join(items) + "]", LT
         if isinstance(e, (ast.Tuple, ast.List)) and not e.elts:
             return "[]", "EMPTY"
         if isinstance(e, ast.Call):
@@ -181,6 +203,10 @@ class Fn:
                 continue
             a, ta = self.expr(left, env, pre)
             b, tb = self.expr(right, env, pre)
+            if isinstance(op, (ast.Eq, ast.NotEq)) and ta == LN and tb == LN:
+                parts.append(f"(nat_list_eq {a} {b})" if isinstance(op, ast.Eq) else f"(negb (nat_list_eq {a} {b}))")    # shapes compared entry by entry
+                left = right
+                continue
             if isinstance(op, (ast.Eq, ast.NotEq)) and {ta, tb} == {N, ON}:
                 i, o = (a, b) if ta == N else (b, a)
                 parts.append(f"({'py_eq_opt' if isinstance(op, ast.Eq) else 'py_ne_opt'} {i} {o})")
@@ -241,6 +267,11 @@ class Fn:
                 and len(c.keywords[0].value.args) == 1 and not c.keywords[0].value.keywords):
             self.arg(c.keywords[0].value.args[0], env, pre, T)          # evaluated (may raise), value = dtype / device only
             return self.arg(c.args[0], env, pre, T), T
+        if self.is_backend(f, "reshape") and len(c.args) == 2 and not c.keywords and not isinstance(c.args[1], ast.Tuple):
+            x = self.arg(c.args[0], env, pre, T)
+            sh = self.arg(c.args[1], env, pre, LN)
+            h = self.fresh(); pre.append((h, f"np_reshape {x} {sh}"))          # ValueError unless the sizes agree
+            return h, T
         if self.is_backend(f, "reshape") and len(c.args) == 2 and not c.keywords and isinstance(c.args[1], ast.Tuple):
             x, tx = self.expr(c.args[0], env, pre)
             dims = c.args[1].elts
@@ -262,6 +293,13 @@ class Fn:
                 if tn == N:
                     h = self.fresh(); pre.append((h, f"kr_step_n Op {x[1]} {x[2]} {n}"))
                     return h, T
+            if tx == T and len(dims) == 2 and lit.count(-1) == 1 and lit.count(None) == 1:
+                other = dims[0] if lit[1] == -1 else dims[1]
+                n, tn = self.expr(other, env, pre)
+                if tn == N:
+                    spec = f"[Some {n}; None]" if lit[1] == -1 else f"[None; Some {n}]"
+                    h = self.fresh(); pre.append((h, f"reshape_spec {spec} {x}"))
+                    return h, T
             raise Untranslatable("reshape idiom " + _u(c))
         if self.is_backend(f, "kron") and len(c.args) == 2 and not c.keywords:
             return f"(kron2 Op {self.arg(c.args[0], env, pre, T)} {self.arg(c.args[1], env, pre, T)})", T
@@ -281,6 +319,8 @@ class Fn:
             return t, ty
         if isinstance(f, ast.Name) and f.id == "range" and len(c.args) == 1 and not c.keywords:
             t, ty = self.expr(c.args[0], env, pre)
+            if ty == Z:
+                return f"(seq 0 (Z.to_nat {t}))", LN          # range(k) is empty for k <= 0
             if ty != N:
                 raise Untranslatable("range bound " + _u(c.args[0]))
             return f"(seq 0 {t})", LN
@@ -332,6 +372,21 @@ class Fn:
             sk = self.arg(a.get("skip_matrix"), env, pre, ON, "None"); mk = self.arg(a.get("mask"), env, pre, OT, "None")
             h = self.fresh(); pre.append((h, f"khatri_rao Op {ms} {w} {mk} {sk}"))
             return h, T
+        if self.is_backend(f, "sum") and len(c.args) == 1 and not c.keywords:
+            return f"(np_sum_all Op {self.arg(c.args[0], env, pre, T)})", T
+        if (isinstance(f, ast.Name) and f.id == "int" and len(c.args) == 1 and not c.keywords and isinstance(c.args[0], ast.Call)
+                and _u(c.args[0].func) == "np.prod" and len(c.args[0].args) == 1 and not c.args[0].keywords):
+            return f"(prod {self.arg(c.args[0].args[0], env, pre, LN)})", N
+        if isinstance(f, ast.Name) and f.id == "batched_outer" and len(c.args) == 1 and not c.keywords:
+            l = self.arg(c.args[0], env, pre, LT)
+            h = self.fresh(); pre.append((h, f"batched_outer Op {l}"))      # the model routine [batched_outer_source_is_model]
+            return h, T
+        if (self.is_backend(f, "mean") and len(c.args) == 1 and len(c.keywords) == 1 and c.keywords[0].arg == "axis"
+                and isinstance(c.keywords[0].value, ast.Constant) and c.keywords[0].value.value == 0):
+            # the mean over the samples divides by n_samples, which the ring model cannot: an opaque function argument of the regenerated
+            # routine (the model computes n_samples * mean = the sum over axis 0, which is what the correspondence compares)
+            self.uses_mean0 = True
+            return f"(np_mean0 {self.arg(c.args[0], env, pre, T)})", T
         if isinstance(f, ast.Name) and f.id == "sorted":
             # sorted(zip(A, B, range(len(A))), key=lambda x: x[1]): Python's sort is stable, like the model's insertion sort
             ok = (len(c.args) == 1 and len(c.keywords) == 1 and c.keywords[0].arg == "key" and self.is_name_call(c.args[0], "zip")
@@ -359,6 +414,14 @@ class Fn:
                 raise Untranslatable("slice of " + _u(e.value))
             if (s.upper is None and s.step is None and isinstance(s.lower, ast.Constant) and s.lower.value == 1):
                 return f"(tl {t})", ty
+            if s.step is None and (s.lower is None) != (s.upper is None):
+                bnd, tb_ = self.expr(s.lower if s.lower is not None else s.upper, env, pre)
+                if tb_ == Z and bnd.startswith("(") and bnd.endswith(")%Z") and bnd[1:-3].isdigit():
+                    bnd, tb_ = bnd[1:-3], N
+                if tb_ == N:
+                    return f"({'skipn' if s.lower is not None else 'firstn'} {bnd} {t})", ty
+                if tb_ == Z:         # a negative bound counts from the end
+                    return f"({'py_slice_from' if s.lower is not None else 'py_slice_to'} {t} {bnd})", ty
             if s.lower is None and s.upper is None and s.step is not None:
                 step = None
                 if isinstance(s.step, ast.Name) and s.step.id in env and env[s.step.id].const is not None:
@@ -662,12 +725,20 @@ class Fn:
         if temps is None:
             rest_names = {n.id for st_ in rest for n in ast.walk(st_) if isinstance(n, ast.Name)}
             temps = [x for x in state if x not in env and x not in rest_names]
-            if temps and len(temps) < len(state):
+            first = True
+            while temps and len(temps) < len(state):
                 try:
-                    return self.for_(s, rest, env, k, temps=temps)
+                    return self.for_(s, rest, env, k, temps=list(temps))
                 except Untranslatable as e:
-                    if not any(str(e) == "free name " + x for x in temps):
+                    bad = [x for x in temps if str(e) == "free name " + x]
+                    if not bad:
                         raise
+                    # a local read before it is bound on some path of the body is loop state (possibly unbound), the others stay temporaries;
+                    # routines translated before this refinement keep their all-or-nothing state (their proof scripts name it)
+                    if first and self.fn.name in LEGACY_STATE:
+                        break
+                    first = False
+                    temps = [x for x in temps if x not in bad]
             temps = []
         state = [x for x in state if x not in temps]
         env_in = dict(env)
@@ -717,10 +788,13 @@ class Fn:
         def end(_):
             raise Untranslatable(f"{self.fn.name} may fall off its end")
         self.uses_unmodelled = False
+        self.uses_mean0 = False
         body = self.run(list(self.fn.body), env, end)
         ps = " ".join(f"({V(p)} : {GT[t]})" for p, t in self.params.items())
         if self.uses_unmodelled:
             ps = f"(unmodelled : res ({GT[self.ret]})) " + ps
+        if self.uses_mean0:
+            ps = "(np_mean0 : tensor F -> tensor F) " + ps
         return f"Definition {name} {ps} : res ({GT[self.ret]}) :=\n  {body}."
 
 
@@ -736,7 +810,7 @@ def _function(repo, rel, name):
 HEADER = """From Coq Require Import List Arith ZArith Lia Bool. Import ListNotations.
 From Coq Require Import Ring_theory.
 From TLV Require Import Base.Shape Base.PyList Base.Tensor Base.BigSum Model.Base Proofs.BaseProofs Model.Tenalg Proofs.TenalgProofs Proofs.TenalgProofsKR Proofs.TenalgProofsValidate
-  Proofs.TenalgProofsMulti Proofs.TenalgProofsMultiGen Proofs.TenalgProofsMemory Proofs.TenalgProofsDefault Proofs.TenalgProofsSrc.
+  Proofs.TenalgProofsMulti Proofs.TenalgProofsMultiGen Proofs.TenalgProofsMemory Proofs.TenalgProofsDefault Proofs.TenalgProofsSrc Proofs.TenalgProofsBcast Model.TenalgRaw Proofs.TenalgProofsInner Proofs.TenalgProofsInnerRaw Proofs.TenalgProofsSrcInner.
 Ltac split_all :=
   repeat (cbn [rbind fst snd negb andb orb py_get Nat.eqb Nat.ltb Nat.leb];
           first [ match goal with |- context [if ?b then _ else _] => is_var b; destruct b end
@@ -904,6 +978,108 @@ Proof.
      split_all; try reflexivity; try congruence ]).
 Qed.
 """,
+    # the loop is the model's fold of outer2: first iteration binds the accumulator, every later one reshapes both operands with
+    # size-1 axes and multiplies with NumPy broadcasting - literally outer2 [C02_outer_step_is_broadcast]; no hypothesis
+    "outer": """
+Theorem outer_source_is_model : forall ts, outer_py ts = outer Op ts.
+Proof.
+  intros ts. unfold outer_py.
+  etransitivity.
+  - apply (fold_first_then_state (fun a x => Ok (outer2 Op a x)) (fun a => shape a) (fun a => length (shape a)) _ _ (fun a => Ok a)).
+    + intros [[b1 b2] o] x. reflexivity.
+    + intros a i x. cbn [Nat.eqb negb py_get rbind]. cbv zeta. unfold np_reshape.
+      exact (rbind_chain2 _ _ _ _ _ (outer_step_is_broadcast Op a x)).
+    + intros b1 b2 [a|]; reflexivity.
+  - unfold outer. destruct ts as [|t0 r]; [reflexivity|]. now rewrite fold_res_total.
+Qed.
+""",
+    # tensors of order >= 1 (each has the batch mode): the loop is the model's bouter_loop - batch sizes compared, then the reshape /
+    # broadcast step, literally bouter2 [C02_batched_outer_step_is_broadcast]; a 0-d operand (IndexError in the code) is outside
+    "batched_outer": """
+Lemma bouter_loop_fold (r : list (tensor F)) : forall a,
+  fold_res (fun a x => if nth 0 (shape x) 0 =? nth 0 (shape a) 0 then Ok (bouter2 Op a x) else Err) r a = bouter_loop Op r a.
+Proof.
+  induction r as [|x r IH]; intros a; cbn [fold_res bouter_loop]; [reflexivity|].
+  destruct (nth 0 (shape x) 0 =? nth 0 (shape a) 0); cbn [rbind]; [apply IH | reflexivity].
+Qed.
+Theorem batched_outer_source_is_model : forall ts, Forall (fun t : tensor F => shape t <> []) ts -> batched_outer_py ts = batched_outer Op ts.
+Proof.
+  intros ts Hts. unfold batched_outer_py.
+  etransitivity.
+  - apply (fold_first_then_state_inv (fun t : tensor F => shape t <> [])
+             (fun a x => if nth 0 (shape x) 0 =? nth 0 (shape a) 0 then Ok (bouter2 Op a x) else Err)
+             (fun a => shape a) (fun a => (Z.of_nat (length (shape a)) - 1)%Z) _ _ (fun a => Ok a)); [ | | | | exact Hts].
+    + intros [[b1 b2] o] x. reflexivity.
+    + intros a i x Pa Px. cbn [Nat.eqb negb py_get rbind]. cbv zeta.
+      destruct (shape_nonempty a Pa) as (n & ra & Ea). destruct (shape_nonempty x Px) as (m & rb & Ex).
+      rewrite Ea, Ex. rewrite !py_nth_z_0. cbn [rbind nth length tl].
+      destruct (m =? n) eqn:E; cbn [negb rbind]; [|reflexivity].
+      apply Nat.eqb_eq in E. subst m.
+      pose proof (batched_outer_step_is_broadcast Op a x n ra rb Ea Ex) as Hstep.
+      unfold ndim in Hstep. rewrite Ea, Ex in Hstep. cbn [length tl Nat.sub] in Hstep. rewrite !Nat.sub_0_r in Hstep.
+      replace (Z.to_nat (Z.of_nat (S (length rb)) - 1)) with (length rb) by lia.
+      replace (Z.to_nat (Z.of_nat (S (length ra)) - 1)) with (length ra) by lia.
+      unfold np_reshape. rewrite <- app_assoc.
+      exact (rbind_chain2 _ _ _ _ _ Hstep).
+    + intros a x a' Pa Px. destruct (nth 0 (shape x) 0 =? nth 0 (shape a) 0); [|discriminate].
+      intros H; injection H as <-. unfold bouter2, tabulate. cbn [shape]. destruct (shape a); [congruence | discriminate].
+    + intros b1 b2 [a|]; reflexivity.
+  - unfold batched_outer. destruct ts as [|t0 r]; [reflexivity|]. rewrite bouter_loop_fold. apply rbind_ok_id.
+Qed.
+""",
+    # the loop applies batched_outer([moment, tensor]) order - 1 times (not at all for order <= 1); with the mean over the samples read
+    # as the sum it is the model's higher_order_moment_sum for every order >= 1
+    "higher_order_moment": """
+Lemma fold_res_iter {A X} (step : A -> X -> res A) (g : A -> res A) : (forall st x, step st x = g st) ->
+  forall (l : list X) st, fold_res step l st = iter_res (length l) g st.
+Proof. intros H. induction l as [|x l IH]; intros st; cbn [fold_res iter_res length]; [reflexivity|]. rewrite H. destruct (g st); cbn [rbind]; [apply IH | reflexivity]. Qed.
+Theorem higher_order_moment_loop_source_is_model : forall mean0 T order,
+  higher_order_moment_py mean0 T order
+  = rbind (iter_res (Z.to_nat (order - 1)) (fun m => batched_outer Op [m; T]) T) (fun m => Ok (mean0 m)).
+Proof.
+  intros mean0 T order. unfold higher_order_moment_py. cbv zeta.
+  rewrite (fold_res_iter _ (fun m => batched_outer Op [m; T])) by (intros st x; apply rbind_ok_id).
+  now rewrite seq_length.
+Qed.
+Theorem higher_order_moment_source_is_model : forall T order, 1 <= order ->
+  higher_order_moment_py (sum_axis0 Op) T (Z.of_nat order) = higher_order_moment_sum Op T order.
+Proof.
+  intros T order Ho. rewrite higher_order_moment_loop_source_is_model. unfold higher_order_moment_sum, moment_sum.
+  destruct order as [|k]; [lia|]. cbn [Nat.eqb]. replace (Z.to_nat (Z.of_nat (S k) - 1)) with (S k - 1) by lia. reflexivity.
+Qed.
+""",
+    # both branches, every n_modes: the traditional inner product is T.sum of the broadcasting product of equal shapes; with n_modes the
+    # code is inner_as_is (Model/TenalgRaw.v: the slices with len - n_modes, negative beyond the order, read with Python's slice rule),
+    # which within the order of tensor1 is the documented routine [C02_inner_core_as_is_in_range_partial]; no hypothesis
+    "inner": """
+(* the source is EITHER the code as it is today (inner_as_is) OR, once n_modes is validated against the order of tensor1 (fix candidate
+   C02_inner_n_modes_beyond_order), the documented routine `inner` itself; any other body is a broken tie *)
+Ltac inner_as_is_script :=
+  intros A B [n|]; unfold inner_py; cbv zeta;
+  [ unfold inner_as_is, py_slice_from, py_slice_to; rewrite !py_clip_inner;
+    destruct (nat_list_eq (skipn (inner_cut (length (shape A)) n) (shape A)) (firstn n (shape B))); cbn [negb]; [|reflexivity];
+    destruct (reshape_spec [None; Some (prod (skipn (inner_cut (length (shape A)) n) (shape A)))] A) as [A2|] eqn:EA; cbn [rbind]; [|reflexivity];
+    destruct (reshape_spec [Some (prod (skipn (inner_cut (length (shape A)) n) (shape A))); None] B) as [B2|] eqn:EB; cbn [rbind]; [|reflexivity];
+    rewrite (np_dot_reshaped Op A B A2 B2 _ EA EB); cbn [rbind]; unfold np_reshape; apply rbind_ok_id
+  | unfold inner; destruct (nat_list_eq (shape A) (shape B)) eqn:E; cbn [negb]; [|reflexivity];
+    apply nat_list_eq_true in E; exact (sum_of_product_same_shape Op A B E) ].
+Ltac inner_documented_script :=
+  intros A B [n|]; unfold inner_py; cbv zeta;
+  [ unfold inner, lastn', py_slice_from, py_slice_to; cbn [Nat.leb andb];
+    destruct (n <=? length (shape A)) eqn:En; cbn [negb andb]; [|reflexivity];
+    rewrite !py_clip_inner; rewrite !(inner_cut_in_range _ _ (proj1 (Nat.leb_le _ _) En));
+    destruct (nat_list_eq (skipn (length (shape A) - n) (shape A)) (firstn n (shape B))); cbn [negb]; [|reflexivity];
+    destruct (reshape_spec [None; Some (prod (skipn (length (shape A) - n) (shape A)))] A) as [A2|] eqn:EA; cbn [rbind]; [|reflexivity];
+    destruct (reshape_spec [Some (prod (skipn (length (shape A) - n) (shape A))); None] B) as [B2|] eqn:EB; cbn [rbind]; [|reflexivity];
+    rewrite (np_dot_reshaped Op A B A2 B2 _ EA EB); cbn [rbind]; unfold np_reshape; apply rbind_ok_id
+  | unfold inner; destruct (nat_list_eq (shape A) (shape B)) eqn:E; cbn [negb]; [|reflexivity];
+    apply nat_list_eq_true in E; exact (sum_of_product_same_shape Op A B E) ].
+Theorem inner_source_is_model :
+  (forall A B nm, inner_py A B nm = match nm with None => inner Op A B None | Some n => inner_as_is Op A B n end)
+  \\/ (forall A B nm, inner_py A B nm = inner Op A B nm).
+Proof. first [ left; inner_as_is_script | right; inner_documented_script ]. Qed.
+""",
+
     "kronecker": """
 Theorem kronecker_source_is_model : forall Ms skip reverse,
   kronecker_py Ms skip reverse = kronecker Op Ms skip reverse.
@@ -928,6 +1104,7 @@ Qed.
 """,
 }
 
+LEGACY_STATE = ("mode_dot", "multi_mode_dot", "khatri_rao", "kronecker", "unfolding_dot_khatri_rao", "unfolding_dot_khatri_rao_memory")
 ROUTINES = [
     ("n_mode_product.py", "mode_dot", {"tensor": T, "matrix_or_vector": T, "mode": Z, "transpose": B}, T),
     ("n_mode_product.py", "multi_mode_dot", {"tensor": T, "matrix_or_vec_list": LT, "modes": OLZ, "skip": ON, "transpose": B}, T),
@@ -935,9 +1112,15 @@ ROUTINES = [
     ("_kronecker.py", "kronecker", {"matrices": LT, "skip_matrix": ON, "reverse": B}, T),
     ("mttkrp.py", "unfolding_dot_khatri_rao", {"tensor": T, "cp_tensor": PAIR_OT_LT, "mode": N}, T),
     ("mttkrp.py", "unfolding_dot_khatri_rao_memory", {"tensor": T, "cp_tensor": PAIR_OT_LT, "mode": N}, T),
+    ("outer_product.py", "outer", {"tensors": LT}, T),
+    ("outer_product.py", "batched_outer", {"tensors": LT}, T),
+    ("moments.py", "higher_order_moment", {"tensor": T, "order": Z}, T),
+    ("generalised_inner_product.py", "inner", {"tensor1": T, "tensor2": T, "n_modes": ON}, T),
 ]
 THEOREMS = {"mode_dot": "mode_dot_source_is_model", "khatri_rao": "khatri_rao_source_is_model", "multi_mode_dot": "multi_mode_dot_source_is_model", "kronecker": "kronecker_source_is_model",
-            "unfolding_dot_khatri_rao": "mttkrp_source_is_model", "unfolding_dot_khatri_rao_memory": "mttkrp_memory_source_is_model"}
+            "unfolding_dot_khatri_rao": "mttkrp_source_is_model", "unfolding_dot_khatri_rao_memory": "mttkrp_memory_source_is_model",
+            "outer": "outer_source_is_model", "batched_outer": "batched_outer_source_is_model",
+            "higher_order_moment": "higher_order_moment_source_is_model", "inner": "inner_source_is_model"}
 
 
 def generate(repo, routine):
@@ -965,7 +1148,10 @@ CALLEES = {"khatri_rao": {},
            "multi_mode_dot": {"mode_dot": "tensorly.tenalg.core_tenalg.n_mode_product:mode_dot"},
            "kronecker": {},
            "unfolding_dot_khatri_rao": {"khatri_rao": "tensorly.tenalg.core_tenalg._khatri_rao:khatri_rao", "unfold": "tensorly.base:unfold"},
-           "unfolding_dot_khatri_rao_memory": {"multi_mode_dot": "tensorly.tenalg.core_tenalg.n_mode_product:multi_mode_dot"}}
+           "unfolding_dot_khatri_rao_memory": {"multi_mode_dot": "tensorly.tenalg.core_tenalg.n_mode_product:multi_mode_dot"},
+           "outer": {}, "batched_outer": {},
+           "higher_order_moment": {"batched_outer": "tensorly.tenalg.core_tenalg.outer_product:batched_outer"},
+           "inner": {}}
 
 
 def routing(repo):
@@ -1005,5 +1191,10 @@ def routing(repo):
                 problems.append(f"core {name}: the name {callee} is not bound to {target}")
         for alias in BACKEND_ALIASES:
             if alias in f.__globals__ and alias in {n.id for n in ast.walk(node) if isinstance(n, ast.Name)} and f.__globals__[alias] is not tensorly.backend:
-                problems.append(f"core {name}: the backend alias {alias} is not tensorly.backend")
+                # `import tensorly as tl`: the top-level package re-exports the backend's dispatched functions; every attribute the
+                # function reads through the alias must be that same object
+                used = {n.attr for n in ast.walk(node) if isinstance(n, ast.Attribute) and isinstance(n.value, ast.Name) and n.value.id == alias}
+                obj = f.__globals__[alias]
+                if not (obj is tensorly and all(getattr(obj, a, None) is getattr(tensorly.backend, a, object()) for a in used)):
+                    problems.append(f"core {name}: the backend alias {alias} is not tensorly.backend")
     return problems
